@@ -388,8 +388,11 @@ def run(report, p):
                 groups["list"].append(g.node_for(call))
             elif a0 == sp.params[3]:
                 groups["file"].append(g.node_for(call))
+            elif isinstance(call.args[0], (ast.ListComp, ast.GeneratorExp)) and any(isinstance(x, ast.Name) for x in ast.walk(call.args[0].generators[0].iter)) and any(isinstance(w, ast.With) and any(isinstance(it.context_expr, ast.Call) and norm(it.context_expr.func) == "open" and it.context_expr.args and norm(it.context_expr.args[0]) == sp.params[3] for it in w.items) for w in _ancestors12(call)):
+                # the lines of the pattern file, read here (R12.8 judges how a line becomes a pattern)
+                groups["file"].append(g.node_for(call))
             else:
-                r4.check(False, sp, call, f"unrecognised pattern source `{a0}` in set_patterns")
+                raise AnalysisError(f"{sp.loc(call)}: pattern source `{a0[:60]}` in set_patterns is not one of the three this rule knows (previous / -i / -ii)")
     if not any(groups.values()):
         raise AnalysisError("MHLIgnoreSpec.set_patterns: no call of an append helper of the spec found (helpers renamed or inlined?); the accumulation rule cannot be evaluated on this shape")
     ok = all(groups.values())
@@ -604,6 +607,9 @@ def run(report, p):
     for el, r in reps:
         r6.instance(r.func, r.loop, f"<ignore> loop over {norm(r.loop.iter)}")
         it = r.loop.iter
+        from .common import resolve_local_iterable
+
+        it = resolve_local_iterable(r.func, it)
         plain = isinstance(it, ast.Call) and isinstance(it.func, ast.Attribute) and it.func.attr == "get_pattern_list" and not it.args
         body_ok = len(r.items) == 1 and isinstance(r.items[0], Elem) and r.items[0].tag == "pattern" and r.items[0].text is not None and norm(r.items[0].text[0]) == norm(r.loop.target)
         r6.check(plain and body_ok, r.func, r.loop, "the <ignore> writer does not emit each pattern of get_pattern_list() in order")
@@ -721,6 +727,13 @@ def run(report, p):
     include_rules(report, p, 'c03', ['R3.10'], 'the latest generation and its spec are looked up with presence tests; a class that gains __len__ turns them into emptiness tests and recorded patterns are dropped')
     include_rules(report, p, 'c13', ['R13.2'], 'patterns are matched against the path relative to the sealed root (not to the working directory or a sub-folder), in the traversal and in the missing-file filter alike')
     report.not_decided += ["pathspec matching semantics for concrete patterns", "that ignored entries are absent from concrete record sets / directory hashes at run time"]
+
+
+def _ancestors12(n):
+    x = parent(n)
+    while x is not None:
+        yield x
+        x = parent(x)
 
 
 def _enclosing_if(n):
